@@ -180,6 +180,34 @@ def _argpartition_stub(rec):
     return argpartition
 
 
+def _partition_stub(rec):
+    """np.partition(flat, kth): the n - kth best entries (any admissible choice, as argpartition) behind position kth, the
+    smallest of them AT position kth"""
+    def partition(flat, kth, axis=-1):
+        flat = symnp.asarray(flat)
+        order = [symnp._to_index(i) for i in symnp.argpartition(flat, kth).d]
+        lo, up = order[:kth], order[kth:]
+        g = core.guide()
+        if g is not None:
+            piv = min(up, key=lambda i: (g.value(S(flat.d[i].p)), i))
+        else:
+            piv = up[core.choose(len(up))]
+            cons = []
+            for u in up:
+                if u != piv:
+                    c = flat.d[piv] <= flat.d[u]
+                    if isinstance(c, bool):
+                        if not c:
+                            raise core.Abort('not the k-th')
+                        continue
+                    cons.append(core.zb(c))
+            if cons:
+                core.assume(z3.And(*cons), check=False)
+        out = lo + [piv] + [u for u in up if u != piv]
+        return symnp.A([flat.d[i] for i in out], (len(out),), flat.dtype)
+    return partition
+
+
 def run_task(task, patches=None):
     H = Harness(patches, timeout_ms=60000)
     dec = H.load('pero_ocr.decoding.decoders')
@@ -193,6 +221,7 @@ def run_task(task, patches=None):
     P = [[None if (t, c) in zeros else pv[t][c] for c in range(C)] for t in range(T)]
     rec = {'selections': [], 'frames': [], 'sel': []}
     symnp.argpartition = _argpartition_stub(rec)
+    symnp.partition = _partition_stub(rec)
     K = 'C02:beam:'
     # the final ordering of the bag is not part of the property (and sorting symbolic scores would fork on every comparison)
     dec.BagOfHypotheses.sort = lambda self: None
@@ -393,6 +422,7 @@ def _run_guard(H, dec, task):
     pv = [[z3.Real('p_%d_%d' % (t, c)) for c in range(C)] for t in range(T)]
     rec = {'selections': []}
     symnp.argpartition = _argpartition_stub(rec)
+    symnp.partition = _partition_stub(rec)
     K = 'C02:guard:'
 
     def case(m_, **kw):
